@@ -23,6 +23,9 @@
 #include <opm/io/eclipse/EclOutput.hpp>
 #include <opm/io/eclipse/ERst.hpp>
 #include <opm/io/eclipse/ESmry.hpp>
+#include <opm/io/eclipse/ExtESmry.hpp>
+#include <opm/io/eclipse/OutputStream.hpp>
+#include <opm/common/utility/TimeService.hpp>
 
 #include <unistd.h>
 #include <sys/resource.h>
@@ -85,6 +88,62 @@ Outcome runFile(const std::string& path, bool formatted, int kind, std::string& 
         return Outcome::StdException;
     } catch (...) {
         return Outcome::Other;
+    }
+}
+
+// summary result files: SMSPEC + UNSMRY through ESmry (whole and per-vector load paths), the
+// converted ESMRY through ExtESmry
+Outcome runSummary(const std::string& dir, bool esmry, std::string& stage) {
+    try {
+        if (!esmry) {
+            stage = "esmry";
+            EclIO::ESmry s(dir + "/CASE.SMSPEC", false);
+            (void) s.numberOfTimeSteps();
+            const auto keys = s.keywordList();
+            if (!keys.empty()) (void) s.get(keys.front());
+            s.loadData();
+            for (const auto& k : keys) (void) s.get(k).size();
+            (void) s.dates();
+        } else {
+            stage = "extesmry";
+            EclIO::ExtESmry s(dir + "/CASE.ESMRY", false);
+            const auto keys = s.keywordList();
+            if (!keys.empty()) (void) s.get(keys.front());
+            s.loadData();
+            for (const auto& k : keys) (void) s.get(k).size();
+            (void) s.dates();
+        }
+        stage = "done";
+        return Outcome::Returned;
+    } catch (const std::exception&) {
+        return Outcome::StdException;
+    } catch (...) {
+        return Outcome::Other;
+    }
+}
+
+void makeSummaryRun(vh::Rng& r, const std::string& dir) {
+    namespace OS = EclIO::OutputStream;
+    for (auto& e : fs::directory_iterator(dir)) fs::remove_all(e.path());
+    OS::ResultSet rs{ dir, "CASE" };
+    const int nvec = r.pick(std::vector<int>{ 1, 2, 5, 40, 1001 });
+    {
+        OS::SummarySpecification::Parameters prm;
+        prm.add("TIME", ":+:+:+:+", 0, "DAYS");
+        for (int i = 1; i < nvec; ++i) { char b[16]; std::snprintf(b, sizeof b, "W%05d", i); prm.add(r.coin() ? "WBHP" : "WOPR", b, 0, "BARSA"); }
+        OS::SummarySpecification spec(rs, OS::Formatted{ false }, OS::SummarySpecification::UnitConvention::Metric, { 10, 10, 3 },
+                                      OS::SummarySpecification::RestartSpecification{ "", -1 },
+                                      Opm::TimeService::from_time_t(Opm::asTimeT(Opm::TimeStampUTC(Opm::TimeStampUTC::YMD{ 2019, 10, 1 }))));
+        spec.write(prm);
+    }
+    auto stream = OS::createSummaryFile(rs, 1, OS::Formatted{ false }, OS::Unified{ true });
+    int nstep = r.range(1, 6), seq = 0, prev = -1;
+    for (int st = 0; st < nstep; ++st) {
+        if (st == 0 || r.coin()) ++seq;
+        if (prev < seq) { stream->write("SEQHDR", std::vector<int>{ seq }); prev = seq; }
+        stream->write("MINISTEP", std::vector<int>{ st });
+        std::vector<float> p(nvec); for (auto& v : p) v = (float) (r.unit() * 1000); p[0] = (float) (st + 1);
+        stream->write("PARAMS", p);
     }
 }
 
@@ -346,6 +405,32 @@ int main(int argc, char** argv) {
             ++nfiles;
             g_stats[std::string(formatted ? "fmtfile" : "binfile") + ".outcome." + (o == Outcome::Returned ? "returned" : o == Outcome::StdException ? "exception@" + stage : "other")]++;
             if (o == Outcome::Other) log.fail(std::string("file.nonstd-exception.") + stage, "mutations=" + kinds); else log.ok();
+        }
+    }
+
+    if (only.empty() || only == "files") {
+        // summary files: a fresh SMSPEC/UNSMRY pair (and its ESMRY conversion), one of the files mutated
+        const std::string sdir = g_outdir + "/tmp/smry";
+        fs::create_directories(sdir);
+        int n = tier == "thorough" ? 4000 : 400;
+        for (int i = 0; i < n; ++i) {
+            std::string kinds, stage;
+            const bool esmry = i % 3 == 2;
+            try {
+                makeSummaryRun(rng, sdir);
+                if (esmry) { EclIO::ESmry s(sdir + "/CASE.SMSPEC", false); s.make_esmry_file(); }
+            } catch (const std::exception&) { g_stats["smry.setup-failed"]++; continue; }
+            const std::string victim = sdir + (esmry ? "/CASE.ESMRY" : (rng.coin() ? "/CASE.SMSPEC" : "/CASE.UNSMRY"));
+            std::string bytes = vh::slurp(victim);
+            if (i % 10 != 0) bytes = mutateBytes(bytes, rng, false, kinds);
+            vh::spit(g_outdir + "/current_input.bin", bytes);
+            vh::spit(victim, bytes);
+            alarm(30);
+            Outcome o = runSummary(sdir, esmry, stage);
+            alarm(0);
+            ++nfiles;
+            g_stats[std::string(esmry ? "esmryfile" : "smryfile") + ".outcome." + (o == Outcome::Returned ? "returned" : o == Outcome::StdException ? "exception@" + stage : "other")]++;
+            if (o == Outcome::Other) log.fail(std::string("summary.nonstd-exception.") + stage, "mutated " + victim + " mutations=" + kinds); else log.ok();
         }
     }
 
